@@ -90,6 +90,15 @@ func c06TraceKM(t *harness.Trace, movement, km string) (fp, what string) {
 			return "returned-line-differs-from-buffer", fmt.Sprintf("Readline returned %q but Shell.Line() is %q", call.Line, call.ShellLine)
 		}
 	}
+	// ... and when a minibuffer or a virtually inserted candidate was active at the last wait, the
+	// accepting command re-points the shell at the real input line: what is returned must be what
+	// Shell.Line() holds right after the call
+	if n := len(call.Waits); call.Outcome == "returned" && call.Err == "" && n > 0 && call.Waits[n-1].Obs != nil && (call.Waits[n-1].Obs.Local == "isearch" || call.Waits[n-1].Obs.Local == "menu-select") {
+		// (not for a pending vi operator: it legitimately runs after the accepting command)
+		if call.Line != call.ShellLine {
+			return "returned-line-differs-from-buffer/" + call.Waits[n-1].Obs.Local, fmt.Sprintf("with local keymap %s active, Readline returned %q but Shell.Line() right after the call is %q", call.Waits[n-1].Obs.Local, call.Line, call.ShellLine)
+		}
+	}
 	if movement != "" && len(call.Waits) >= 2 && call.Outcome == "aborted" {
 		first, last := call.Waits[0].Obs, call.Waits[len(call.Waits)-1].Obs
 		// When the command did not ask for its argument key (it does not take one in
